@@ -8,8 +8,8 @@ wit.native_witnesses = ["c20_wit_every_route_format_follows_the_edge_sequence"]
 rg = VerusUnit("c20_route_geom", "c20_route_geom", rlimit=30, paired_kani=(wit, []))
 UNITS = [rg, wit]
 EXPLANATION = ("ONE kernel of C20 (its first mechanism: geometry lookup by edge id and concatenation in route order), NOT the agreement between the encoders. Decided (Verus, verbatim traversal_ops::create_route_linestring, "
-               "create_edge_geometry, create_branch_geometry, any route and geometry table): the route geometry is the concatenation of the STORED geometries of the route's edges IN ROUTE ORDER; a geometry missing from the "
-               "table is an error, never a shortened or shifted geometry; an edge's / branch's geometry is the table row of its edge id. A native witness runs every route output format of the real TraversalOutputFormat "
+               "create_route_geojson, create_edge_geometry, create_branch_geometry, any route and geometry table): the route geometry is the concatenation of the STORED geometries of the route's edges IN ROUTE ORDER; a geometry missing from the "
+               "table is an error, never a shortened or shifted geometry; the GeoJSON output has one feature per route edge IN ROUTE ORDER, each made of that edge's traversal record and ITS stored geometry; an edge's / branch's geometry is the table row of its edge id. A native witness runs every route output format of the real TraversalOutputFormat "
                "on one route (thorough): ids, per-edge records, GeoJSON features and the parsed-back WKT all follow the edge sequence")
 NOT_DECIDED = ("agreement between the WKT / WKB / GeoJSON / JSON encoders (third-party crates); concat_linestrings itself (geo's point iterators: assumed to concatenate); tree outputs (HashMap iteration); the uuid plugin (serde_json)")
 ASSUMPTIONS = ["geo_io_utils::concat_linestrings concatenates the points of its arguments in order (uninterpreted concatenation of a sequence)"]
